@@ -1,6 +1,7 @@
 mod backend;
 mod checks;
 mod e1;
+mod e3;
 mod names;
 mod ops;
 mod refmodel;
